@@ -330,32 +330,32 @@ impl RtpsReaderProxy {
       );
   }
 
-  pub fn mark_frags_requested(&mut self, seq_num: SequenceNumber, frag_nums: &FragmentNumberSet) {
+  // frag_count is the total number of fragments in the sample seq_num.
+  pub fn mark_frags_requested(
+    &mut self,
+    seq_num: SequenceNumber,
+    frag_nums: &FragmentNumberSet,
+    frag_count: u32,
+  ) {
     let req_set = self
       .frags_requested
       .entry(seq_num)
-      .or_insert_with(|| BitVec::with_capacity(64)); // default capacity out of hat
-
-    if let Some(max_fn_requested) = req_set.iter().next_back() {
-      // allocate more space if needed
-      let max_fn_requested = usize::from(max_fn_requested);
-      if max_fn_requested > req_set.len() {
-        let growth_need = max_fn_requested - req_set.len();
-        req_set.grow(growth_need, false);
+      .or_insert_with(|| BitVec::from_elem(frag_count as usize, false));
+    for f in frag_nums.iter() {
+      let f = usize::from(f);
+      // Fragments are numbered from 1. Ignore requests for fragments that do not
+      // exist.
+      if 1 <= f && f <= req_set.len() {
+        req_set.set(f - 1, true);
+      } else {
+        warn!(
+          "mark_frags_requested: No fragment {} in SN={:?}. reader={:?}",
+          f, seq_num, self.remote_reader_guid
+        );
       }
-      for f in frag_nums.iter() {
-        // -1 because FragmentNumbers start at 1
-        req_set.set(usize::from(f) - 1, true);
-      }
-    } else {
-      warn!(
-        "mark_frags_requested: Empty set in NackFrag??? reader={:?} SN={:?}",
-        self.remote_reader_guid, seq_num
-      );
     }
   }
 
-  // This just removes the FragmentNumber entry from the set.
   pub fn mark_frag_sent(&mut self, seq_num: SequenceNumber, frag_num: &FragmentNumber) {
     let mut frag_map_emptied = false;
     if let Some(frag_map) = self.frags_requested.get_mut(&seq_num) {
